@@ -15,7 +15,7 @@ from pams.order import LIMIT_ORDER, Cancel, Order  # noqa: E402
 from pams.simulator import Simulator  # noqa: E402
 
 ID = "C20"
-RULE = ("Market states are constructed through the calls the simulator makes (setup, clock steps with generated fundamentals, "
+RULE = ("(states may end with 1-6 quiet clock steps after the resting quotes were placed, so that quotes with a lifetime expire without an order event; a market-share FCN agent whose expected price differs from the market price on every accessible market must emit an order in every consultation) Market states are constructed through the calls the simulator makes (setup, clock steps with generated fundamentals, "
         "crossing order pairs + matching rounds to place the price history, resting quotes; optional index market over "
         "equal-share components) and agent parameters are drawn from their admissible ranges. (fcn) noise weight or scale 0: the "
         "order must be a buy at E(1-margin) iff E > p, a sell at E(1+margin) iff E < p, nothing if equal, with E = p * "
@@ -69,7 +69,10 @@ def states(draw, n_markets=(1, 3), index=False, max_steps=30, with_quotes=True, 
         idx2 = {"p0": draw(st.sampled_from([90.0, 200.0, 310.0])), "trade": [draw(st.one_of(st.none(), st.floats(0.9, 1.1))) for _ in range(T + 1)]}
     return {"n": n, "ticks": ticks, "p0": p0, "steps": steps, "quotes": quotes, "index": index, "index2": idx2,
             "index_p0": draw(st.sampled_from([100.0, 150.0, 300.0])) if index else None, "shares": draw(st.sampled_from([100, 2000])),
-            "seed": draw(st.integers(0, 2**31 - 1))}
+            "seed": draw(st.integers(0, 2**31 - 1)),
+            # quiet steps after the resting quotes were placed: those with a lifetime expire, so the books change at a clock step
+            # without any order event (cached mid prices are then older than the book)
+            "tail": draw(st.sampled_from([0, 0, 0, 1, 4, 6])) if with_quotes else 0}
 
 
 def build_state(state):
@@ -125,6 +128,8 @@ def build_state(state):
         p = m.get_market_price() + (-off if is_buy else off) * m.tick_size
         if p > 0:
             _call(m._add_order, Order(agent_id=92, market_id=m.market_id, is_buy=is_buy, kind=LIMIT_ORDER, volume=1, price=p, ttl=ttl))
+    for _ in range(state.get("tail", 0)):
+        advance(steps[-1]["fund"])
     return sim, markets, idx, allm
 
 
@@ -339,6 +344,9 @@ def msfcn_check(case):
         orders = _call(a.submit_orders, markets=allm)
         if len(orders) > 1:
             raise Violation("C20.msfcn_one_market", f"{len(orders)} orders in one consultation")
+        if not orders and all(acting.values()):
+            raise Violation("C20.msfcn_acts", f"the expected price differs from the market price on every accessible market {acc}, yet a consultation produced no order "
+                                              f"(recent executed volume per accessible market {w})")
         for o in orders:
             if o.market_id not in acc:
                 raise Violation("C20.accessible_market", f"market-share FCN agent with access to {acc} ordered on market {o.market_id}")
